@@ -709,7 +709,7 @@ class Searcher(object):
                                             reverse=reverse)
         elif groupedby or reverse or not limit or limit >= self.doc_count():
             # A collector that gathers every matching document
-            c = collectors.UnlimitedCollector(reverse=reverse)
+            c = collectors.UnlimitedCollector(reverse=reverse, limit=limit)
         else:
             # A collector that uses block quality optimizations and a heap
             # queue to only collect the top N documents
